@@ -312,12 +312,29 @@ def P12():
     )
 
 
+def P13():
+    """Constant-velocity model with a two-reading sensor whose predicted readings are strongly correlated and whose
+    noise is small: the regime in which a wrong S^-1 or a wrong update order destroys positive semi-definiteness."""
+    x, v, a, dt = V("x"), V("v"), V("a"), V("dt")
+    return Program(
+        id="P13-xv-pair",
+        state=["x", "v"],
+        control=["a"],
+        calibration=[],
+        update={"x": x + v * dt, "v": v + a * dt},
+        process_noise={"a": 0.25},
+        sensors={"pair": {"r1": x + v, "r0": x}},
+        sensor_noise={"pair": {"r1": 0.0009765625, "r0": 0.001953125}},
+        note="correlated two-reading sensor, small noise (covariance-validity histories)",
+    )
+
+
 def quick_programs():
     return [P1(), P3(), P8()]
 
 
 def all_fixed():
-    return [P1(), P2(), P3(), P7(), P8(), P10(), P12()]
+    return [P1(), P2(), P3(), P7(), P8(), P10(), P12(), P13()]
 
 
 def with_noise(p, process=None, sensor=None, pid=None):
